@@ -20,7 +20,8 @@ RULE = ('E2 state machine + E1: the state is the legacy switch, observed '
         'after every event), each transition compared with the 2-state '
         'model. In each state the full observation: every integer of '
         '[-70000, 70000], every n within 2 (thorough 4096) of +-2^7 .. '
-        '+-2^64, all +-2^k+-1 for k <= 70 and seeded 64-bit integers, at '
+        '+-2^64, all +-2^k+-1 for k <= 70, integers of up to 10000 digits and '
+        'seeded 64-bit integers, at '
         'four positions (table_integer, top-level value, array element, '
         'table inside an array): emitted bytes equal the reference ladder '
         'for that state, only b s I l tags appear anywhere in legacy output, '
@@ -28,7 +29,10 @@ RULE = ('E2 state machine + E1: the state is the legacy switch, observed '
         'TypeError; arrays of every length 0..69, 100, 255, 256, 400 of one / '
         'two alternating / all ladder integers equal the reference ladder; '
         'fixed-width encoders refuse limit+-1, +-2 with '
-        'TypeError. A case is (state, integer, position) or a transition; '
+        'TypeError; IntEnum members and int subclass instances (fresh classes '
+        'per sequence of <= 4 switch settings) follow the ladder of the '
+        'current setting; one continuous history with N never-seen integers '
+        'between probe and toggle for every N of a dense range. A case is (state, integer, position) or a transition; '
         'non-trivial = integer outside [-128, 127] or a transition.')
 BOUNDS = {'quick': {'dense_range': '[-70000, 70000]', 'boundary_radius': 2,
                     'toggle_sequences': '6 events ^ 4 x 3 observation modes'},
